@@ -443,12 +443,12 @@ bool Session::sequence_check(const unsigned seqnum, const Message *msg)
 		if (_state == States::st_resend_request_sent)
 		{
 			slout_warn << "Resend request already sent";
-			if (seqnum > _resend_upto)
-				_resend_upto = seqnum;
 		}
 		else if (_state == States::st_continuous || _state == States::st_test_request_sent)
 		{
-			_resend_upto = seqnum; // recovery is complete when the expected number has passed the highest number seen meanwhile
+			// recovery is complete when the expected number has passed the number that revealed the gap: the peer's replay reaches at
+			// least that far; whatever is still missing after that shows up as a new gap and is asked for again
+			_resend_upto = seqnum;
 			send(generate_resend_request(_next_receive_seq));
 			do_state_change(States::st_resend_request_sent);
 		}
